@@ -36,6 +36,11 @@ def _dataset():
         return json.load(fd)
 
 
+RML_ENTRIES = [
+    ("Monday 5pm or 3.4.2020", "2018-03-07T12:43:00", "Time[]{2020-04-03 X:X (X/X)}"),
+    ("5:30 - 7pm", "2018-03-07T12:43:00", "Time[]{X-X-X 19:00 (X/X)}"),
+    ("lunch tomorrow or friday 8pm", "2018-03-07T12:43:00", "Time[]{2018-03-08 X:X (X/X)}"),
+]
 GENERATED = [
     ("tomorrow 5pm", "2018-03-07T12:43:00", "Time[]{2018-03-08 17:00 (X/X)}"),
     ("tomorrow 5pm", "2018-03-07T12:43:00", "Time[]{X-X-X 17:00 (X/X)}"),
@@ -95,6 +100,11 @@ def plan(tier, seed):
             for d in (0, 10):
                 for sk in ("dummy", "shipped"):
                     yield ("gen",) + g + (d, sk)
+        # the builder's own options are handed through: relative_match_len below 1 lets shorter match sequences in
+        for g in GENERATED + RML_ENTRIES:
+            for rml in (0.8, 0.5, 0.1):
+                yield ("gen",) + g + (0, "dummy", rml)
+                yield ("gen",) + g + (10, "shipped", rml)
         for i in range(len(corp)):
             yield ("corpus", i, tier)
         for i in range(len(EXTRA_TRIPLES)):
@@ -118,14 +128,19 @@ def plan(tier, seed):
             for negkind in ("prefix", "disjoint", "same_tokens_other_order"):
                 yield ("mono3", L, negkind, 40 if tier == "quick" else 160)
 
-    space = {"long_trace_duplication_chains": 18, "dataset_entries": len(ds), "corpus_triples": len(corp), "generated_entries": len(GENERATED), "small_scope_training_sets": sum(1 for k in (2, 3) for idx in itertools.product(range(n), repeat=k) if len({ld[i][1] for i in idx}) == 2), "copies": [1, 2, 5]}
+        # heavily imbalanced training sets (tens to hundreds of negatives per positive): copies of one positive example, one at a time
+        for n_neg in (30, 83, 200, 505):
+            for L in (2, 5, 9):
+                yield ("mono4", n_neg, L, 24 if tier == "quick" else 120)
+
+    space = {"imbalanced_duplication_chains": 12, "long_trace_duplication_chains": 18, "dataset_entries": len(ds), "corpus_triples": len(corp), "generated_entries": len(GENERATED), "small_scope_training_sets": sum(1 for k in (2, 3) for idx in itertools.product(range(n), repeat=k) if len({ld[i][1] for i in idx}) == 2), "copies": [1, 2, 5]}
     return {"space": space, "cases": gen(), "chunk": 16, "hash_distinct": True}
 
 
-def _expected(text, ts, gold_obs, depth, scorer):
+def _expected(text, ts, gold_obs, depth, scorer, rml=1.0):
     gen = lib()[1]
     out = []
-    for c in gen(text, ts, relative_match_len=1.0, timeout=0, max_stack_depth=depth, scorer=scorer, latent_time=False):
+    for c in gen(text, ts, relative_match_len=rml, timeout=0, max_stack_depth=depth, scorer=scorer, latent_time=False):
         if c is None:
             continue
         y = obs(c.resolution) == gold_obs
@@ -153,14 +168,19 @@ def run_case(case):
             e = _dataset()[case[1]]
             text, ts, gold_s, depth, sk = e["text"], datetime.strptime(e["ref_time"], "%Y-%m-%dT%H:%M:%S"), e["gold_parse"], case[2], case[3]
         else:
-            _, text, ts_s, gold_s, depth, sk = case
+            _, text, ts_s, gold_s, depth, sk = case[:6]
             ts = ts_of(ts_s)
+        rml = case[6] if kind == "gen" and len(case) > 6 else None
         mk = (lambda: DummyScorer()) if sk == "dummy" else (lambda: lib()[2]._DEFAULT_SCORER)
         gold = parse_nb_string(gold_s)
         entry = TimeParseEntry(text=text, ts=ts, gold=gold)
-        got = list(make_partial_rule_dataset([entry], scorer=mk(), timeout=0, max_stack_depth=depth))
-        exp = _expected(text, ts, obs(gold), depth, mk())
-        _cmp(got, exp, "make_partial_rule_dataset({!r}, gold {})".format(text, gold_s), v, "partial_rule_dataset")
+        if rml is None:
+            got = list(make_partial_rule_dataset([entry], scorer=mk(), timeout=0, max_stack_depth=depth))
+            exp = _expected(text, ts, obs(gold), depth, mk())
+        else:
+            got = list(make_partial_rule_dataset([entry], scorer=mk(), timeout=0, max_stack_depth=depth, relative_match_len=rml))
+            exp = _expected(text, ts, obs(gold), depth, mk(), rml)
+        _cmp(got, exp, "make_partial_rule_dataset({!r}, gold {}{})".format(text, gold_s, "" if rml is None else ", relative_match_len=%s" % rml), v, "partial_rule_dataset")
         labels = {y for _, y in exp}
         return {"o": kind + ":" + ("ok" if not v else "bad"), "nt": len(labels) == 2, "v": v, "st": {"samples": len(exp), "positive_samples": sum(1 for _, y in exp if y)}}
     if kind == "corpus":
@@ -196,6 +216,36 @@ def run_case(case):
         _cmp(list(zip(Xs, ys)), exp, "run_corpus({!r}, {})".format(target, tests), v, "run_corpus")
         labels = {y for _, y in exp}
         return {"o": "corpus:" + ("ok" if not v else "bad"), "nt": len(labels) == 2, "v": v, "st": {"samples": len(exp)}}
+    if kind == "mono4":
+        from ctparse.nb_scorer import train_naive_bayes
+
+        _, n_neg, L, top = case
+        pos = ["r%d" % i for i in range(L)]
+        negs = []
+        for i in range(n_neg):
+            # negatives share prefixes of the positive trace (as the prefixes of wrong candidates do) and differ behind them
+            k = i % (L + 1)
+            negs.append(pos[:k] + ["q%d" % (i % 7), "q%d" % (i % 11)])
+        X0 = [pos] + negs + [pos[:1]]
+        y0 = [True] + [False] * n_neg + [True]
+        prev = {}
+        strict = False
+        queries = [pos[:i] for i in range(1, L + 1)]
+        for c in range(0, top + 1):
+            m2 = train_naive_bayes(X0 + [pos] * c, y0 + [True] * c)
+            for q in queries:
+                p_ = m2.predict_log_proba([q])[0]
+                cur = p_[1] - p_[0]
+                pk = tuple(q)
+                if pk in prev and cur < prev[pk][1] - 1e-9:
+                    v.append(viol({"kind": "duplication_lowers_score", "family": "imbalanced"}, "{} negatives, positive trace of {} rules: prefix {} has log-odds {} with {} extra copies but {} with {}".format(n_neg, L, q, prev[pk][1], prev[pk][0], cur, c)))
+                    break
+                if pk in prev and cur > prev[pk][1] + 1e-12:
+                    strict = True
+                prev[pk] = (c, cur)
+            if v:
+                break
+        return {"o": "mono4:" + ("ok" if not v else "bad"), "nt": strict, "v": v[:2], "st": {"retrainings": top + 1}}
     if kind == "mono3":
         from ctparse.nb_scorer import train_naive_bayes
 
